@@ -799,7 +799,7 @@ fn sign(o: std::cmp::Ordering) -> BigInt { BigInt::from(o as i8) }
 const E_HARNESS: i64 = 99; // the harness failed to build arrays holding the requested logical values
 
 pub fn run(op: &str, a: &Args) -> Option<Args> {
-    if !matches!(op, "c11.rows" | "c11.cmp" | "c11.roundtrip") { return None; }
+    if !matches!(op, "c11.rows" | "c11.cmp" | "c11.roundtrip" | "c11.binext") { return None; }
     if std::env::var_os("C11_DEBUG").is_some() {
         // debugging aid: show the panic message (the harness installs a silent panic hook)
         return match std::panic::catch_unwind(std::panic::AssertUnwindSafe(|| run_inner(op, a))) {
@@ -814,12 +814,36 @@ pub fn run(op: &str, a: &Args) -> Option<Args> {
     run_inner(op, a)
 }
 
+/// `from_binary` of a BinaryArray with a non-zero first offset: rows bk..bk+bm of the batch through
+/// `convert_columns(..).try_into_binary().slice(bk, bm)`; checked against the directly converted bytes
+fn binslice_rows(conv: &RowConverter, cols: &[ArrayRef], raw: &[Vec<u8>], bk: usize, bm: usize) -> Option<Rows> {
+    let bin = conv.convert_columns(cols).ok()?.try_into_binary().ok()?;
+    let sl = bin.slice(bk, bm);
+    let rows = conv.from_binary(sl);
+    if rows.num_rows() != bm { return None; }
+    for i in 0..bm {
+        if rows.row(i).as_ref() != &raw[bk + i][..] || rows.row_len(i) != raw[bk + i].len() { return None; }
+    }
+    if rows.iter().zip(&raw[bk..bk + bm]).any(|(r, w)| r.as_ref() != &w[..]) { return None; }
+    if rows.lengths().zip(&raw[bk..bk + bm]).any(|(l, w)| l != w.len()) { return None; }
+    // and back to a binary array again
+    let again = rows.clone().try_into_binary().ok()?;
+    if again.len() != bm || (0..bm).any(|i| again.value(i) != &raw[bk + i][..]) { return None; }
+    Some(rows)
+}
+
 fn run_inner(op: &str, a: &Args) -> Option<Args> {
     let b = Batch::from_args(a);
     let n = b.rows.len();
     let Some(cols) = b.columns() else { return Some(err(E_HARNESS)) };
     let conv = match RowConverter::new(b.fields()) { Ok(c) => c, Err(_) => return Some(err(E_UNSUPPORTED)) };
     let split = b.split.min(n);
+    let sliced: Option<Rows> = if b.mode & 16 != 0 {
+        let plain = conv.convert_columns(&cols).ok()?;
+        let raw: Vec<Vec<u8>> = plain.iter().map(|r| r.as_ref().to_vec()).collect();
+        match binslice_rows(&conv, &cols, &raw, b.bk, b.bm) { Some(r) => Some(r), None => return Some(err(E_INVALID)) }
+    } else { None };
+    let in_slice = |i: usize| sliced.is_some() && i >= b.bk && i < b.bk + b.bm;
     Some(match op {
         "c11.rows" => {
             // mode bit 0: convert_columns(first part) then append(second part); bit 1: start from empty_rows
@@ -830,14 +854,16 @@ fn run_inner(op: &str, a: &Args) -> Option<Args> {
                 rows
             };
             if rows.num_rows() != n { return Some(err(E_INVALID)); }
-            (0..n).map(|i| gbytes(rows.row(i).as_ref())).collect()
+            (0..n).map(|i| gbytes(if in_slice(i) { sliced.as_ref().unwrap().row(i - b.bk).as_ref() } else { rows.row(i).as_ref() })).collect()
         }
         "c11.cmp" => {
             // two independent conversions by the same converter; every pair of rows across both
+            // (and, with mode bit 4, rows re-created by from_binary from a sliced BinaryArray)
             let ra = conv.convert_columns(&slice_cols(&cols, 0, split)).ok()?;
             let rb = conv.convert_columns(&slice_cols(&cols, split, n - split)).ok()?;
-            let all: Vec<arrow_row::Row<'_>> = ra.iter().chain(rb.iter()).collect();
+            let mut all: Vec<arrow_row::Row<'_>> = ra.iter().chain(rb.iter()).collect();
             if all.len() != n { return Some(err(E_INVALID)); }
+            for i in 0..n { if in_slice(i) { all[i] = sliced.as_ref().unwrap().row(i - b.bk); } }
             let mut cm = Vec::with_capacity(n * n); let mut em = Vec::with_capacity(n * n);
             let owned: Vec<arrow_row::OwnedRow> = all.iter().map(|r| r.owned()).collect();
             for (i, x) in all.iter().enumerate() { for (j, y) in all.iter().enumerate() {
@@ -846,6 +872,19 @@ fn run_inner(op: &str, a: &Args) -> Option<Args> {
                 cm.push(sign(x.cmp(y))); em.push(BigInt::from((x == y) as u8));
             } }
             vec![cm, em]
+        }
+        "c11.binext" => {
+            // NOT generated (see the KNOWN-FINDING candidate note in `generate`): extending Rows that came from
+            // from_binary(sliced array): [push appended the right row, append appended the right rows]
+            let plain = conv.convert_columns(&cols).ok()?;
+            let raw: Vec<Vec<u8>> = plain.iter().map(|r| r.as_ref().to_vec()).collect();
+            let mut r1 = binslice_rows(&conv, &cols, &raw, b.bk, b.bm)?;
+            let push_ok = if n > 0 { r1.push(plain.row(0)); r1.num_rows() == b.bm + 1 && r1.row(b.bm).as_ref() == &raw[0][..] && (0..b.bm).all(|i| r1.row(i).as_ref() == &raw[b.bk + i][..]) } else { true };
+            let mut r2 = binslice_rows(&conv, &cols, &raw, b.bk, b.bm)?;
+            let app = std::panic::catch_unwind(std::panic::AssertUnwindSafe(|| { conv.append(&mut r2, &cols).is_ok() }));
+            let append_ok = matches!(app, Ok(true)) && r2.num_rows() == b.bm + n && (0..n).all(|i| r2.row(b.bm + i).as_ref() == &raw[i][..])
+                && (0..b.bm).all(|i| r2.row(i).as_ref() == &raw[b.bk + i][..]);
+            vec![vec![BigInt::from(push_ok as u8), BigInt::from(append_ok as u8)]]
         }
         _ => {
             // mode bit 2: through try_into_binary / from_binary; bit 3: rows re-parsed by RowParser from raw bytes
@@ -858,17 +897,22 @@ fn run_inner(op: &str, a: &Args) -> Option<Args> {
                 if back.num_rows() != n || (0..n).any(|i| back.row(i).as_ref() != &raw[i][..]) { return Some(err(E_INVALID)); }
                 back
             } else { rows };
+            let pick = |i: usize| if in_slice(i) { sliced.as_ref().unwrap().row(i - b.bk) } else { rows.row(i) };
             let parser = conv.parser();
             let arrays = if b.mode & 8 != 0 {
                 conv.convert_rows(b.sel.iter().map(|&i| parser.parse(&raw[i]))).ok()?
             } else if b.mode & 1 != 0 {
                 // the selection buffered in a fresh Rows through Rows::push
                 let mut picked = conv.empty_rows(b.sel.len(), 0);
-                for &i in &b.sel { picked.push(rows.row(i)); }
+                for &i in &b.sel { picked.push(pick(i)); }
                 if picked.num_rows() != b.sel.len() { return Some(err(E_INVALID)); }
                 conv.convert_rows(&picked).ok()?
+            } else if sliced.is_some() && b.mode & 2 != 0 && b.sel.iter().all(|&i| in_slice(i)) && is_run(&b.sel) {
+                // a contiguous run of the sliced rows, decoded through `&Rows` iteration
+                let sl = sliced.as_ref().unwrap();
+                conv.convert_rows(sl.iter().skip(b.sel[0] - b.bk).take(b.sel.len())).ok()?
             } else {
-                conv.convert_rows(b.sel.iter().map(|&i| rows.row(i))).ok()?
+                conv.convert_rows(b.sel.iter().map(|&i| pick(i))).ok()?
             };
             if arrays.len() != b.tys.len() { return Some(err(E_INVALID)); }
             let mut colvals = Vec::new();
@@ -883,6 +927,7 @@ fn run_inner(op: &str, a: &Args) -> Option<Args> {
         }
     })
 }
+fn is_run(sel: &[usize]) -> bool { !sel.is_empty() && sel.windows(2).all(|w| w[1] == w[0] + 1) }
 
 // ------------------------------------------------------------------------------------------ generators
 fn rand_leaf(g: &mut Rng, allow_dict: bool) -> Ty {
@@ -965,6 +1010,13 @@ fn layout(b: &mut Batch, g: &mut Rng) {
     }
     let k = match g.below(6) { 0 => 0, 1 => n, _ => g.below(2 * n + 1) };
     b.sel = if n == 0 { vec![] } else { (0..k).map(|_| g.below(n)).collect() };
+    if b.mode & 16 != 0 && b.bm > 0 {
+        match g.below(3) {
+            0 => b.sel = (0..k).map(|_| b.bk + g.below(b.bm)).collect(),                      // only rows of the slice
+            1 => { let s = g.below(b.bm); let l = 1 + g.below(b.bm - s); b.sel = (b.bk + s..b.bk + s + l).collect(); }   // a contiguous run
+            _ => {}
+        }
+    }
 }
 
 pub fn generate(tier: &str, r: &mut Rng, emit: &mut dyn FnMut(Case)) {
@@ -982,6 +1034,7 @@ pub fn generate(tier: &str, r: &mut Rng, emit: &mut dyn FnMut(Case)) {
     for w in [2, 4, 8] { leaves.push(Ty::leaf(T_FLOAT, w, 0, 0)); }
     for n in [0, 1, 5, 16] { leaves.push(Ty::leaf(T_FSB, n, 0, 0)); }
     for v in 0..6 { leaves.push(Ty::leaf(T_VAR, 0, v, 0)); }
+    for k in 0..2 { leaves.push(Ty::leaf(T_IV, k, 0, 0)); leaves.push(Ty::leaf(T_IV, k, 0, 2 + k as u8)); }
     for d in 1..5 { leaves.push(Ty::leaf(T_INT, 4, 0, d)); leaves.push(Ty::leaf(T_VAR, 0, (d % 4) as u8, d)); leaves.push(Ty::leaf(T_FLOAT, 8, 0, d)); }
     for ty in &leaves {
         for o in all_opts() {
@@ -1041,6 +1094,73 @@ pub fn generate(tier: &str, r: &mut Rng, emit: &mut dyn FnMut(Case)) {
         let mut b = Batch { rows: gen_rows(&tys, n, r, &cfg), tys, opts, prefix: 0, suffix: 0, seed: 0, split: 0, mode: 0, sel: vec![], bk: 0, bm: 0 };
         layout(&mut b, r);
         emit_batch(&b, r, emit, 7);
+    }
+
+    // 6. interval columns: equal leading components, trailing components of opposite sign / extremes
+    //    (the order is the lexicographic order of the SIGNED components; negative milliseconds are legal)
+    for kind in 0..2usize {
+        let ws = iv_widths(kind);
+        let ext = |w: usize| -> Vec<BigInt> { let b = 8 * w; vec![-pow2(b - 1), BigInt::from(-1), BigInt::zero(), BigInt::one(), pow2(b - 1) - 1] };
+        for o in all_opts() {
+            for rep in 0..(if thorough { 6 } else { 2 }) {
+                let lead: Vec<BigInt> = ws.iter().map(|w| rand_comp(*w, r)).collect();
+                let mut vals: Vec<Val> = vec![Val::Null];
+                // all combinations of extremes on the last two components, leading ones fixed
+                let k = ws.len();
+                for x in ext(ws[k - 2]) { for y in ext(ws[k - 1]) {
+                    if rep > 0 && r.chance(1, 3) { continue; }
+                    let mut c = lead.clone(); c[k - 2] = x.clone(); c[k - 1] = y;
+                    vals.push(Val::Struct(c.into_iter().map(Val::Int).collect()));
+                } }
+                // the first component differing by one / in sign with wild trailing components
+                for d in [-1i64, 1] { let mut c: Vec<BigInt> = lead.clone(); let n = &c[0] + d; if n >= -pow2(31) && n < pow2(31) { c[0] = n; }
+                    for j in 1..k { c[j] = rand_comp(ws[j], r); } vals.push(Val::Struct(c.into_iter().map(Val::Int).collect())); }
+                let leaf = Ty::leaf(T_IV, kind, 0, if rep % 3 == 2 { 2 } else { 0 });
+                let ty = match rep % 4 { 1 => Ty { code: T_STRUCT, param: 1, variant: 0, dict: 0, kids: vec![leaf.clone()] },
+                                         3 => Ty { code: T_LIST, param: 0, variant: 0, dict: 0, kids: vec![leaf.clone()] }, _ => leaf.clone() };
+                let wrap = |v: Val| -> Val { match ty.code { T_STRUCT => Val::Struct(vec![v]), T_LIST => Val::List(vec![v]), _ => v } };
+                let rows: Vec<Vec<Val>> = vals.into_iter().map(|v| vec![wrap(v)]).collect();
+                let mut b = Batch { tys: vec![ty.clone()], opts: vec![o], rows, prefix: 0, suffix: 0, seed: 0, split: 0, mode: 0, sel: vec![], bk: 0, bm: 0 };
+                layout(&mut b, r);
+                emit_batch(&b, r, emit, 7);
+            }
+        }
+    }
+
+    // 7. Map<Utf8 | Int32, Int32 nullable> (specification ops only): rows sharing a prefix of equal entries
+    //    and then differing only by a NULL vs non-NULL value under an equal key; keys repeated across rows
+    for keykind in 0..2usize {
+        let kt = if keykind == 0 { Ty::leaf(T_VAR, 0, 2, 0) } else { Ty::leaf(T_INT, 4, 0, 0) };
+        let mt = Ty { code: T_MAP, param: 0, variant: 0, dict: 0, kids: vec![kt.clone(), Ty::leaf(T_INT, 4, 0, 0)] };
+        for o in all_opts() {
+            for rep in 0..(if thorough { 8 } else { 3 }) {
+                let key = |r: &mut Rng| -> Val { if keykind == 0 { Val::Bytes([&b"a"[..], b"b", b"", b"ab", b"k"][r.below(5)].to_vec()) } else { Val::Int(BigInt::from([-1i64, 0, 1, 7][r.below(4)])) } };
+                let val = |r: &mut Rng| -> Val { Val::Int(BigInt::from([i32::MIN as i64, -1, 0, 1, 5, i32::MAX as i64][r.below(6)])) };
+                let ent = |k: Val, v: Val| Val::Struct(vec![k, v]);
+                let nb = r.below(4);
+                let base: Vec<Val> = (0..nb).map(|_| { let k = key(r); let v = if r.chance(1, 4) { Val::Null } else { val(r) }; ent(k, v) }).collect();
+                let mut maps: Vec<Val> = vec![Val::Null, Val::List(vec![]), Val::List(base.clone())];
+                let with_last = |v: Val| -> Option<Val> { let mut m = base.clone(); let l = m.pop()?; let Val::Struct(kv) = l else { return None }; m.push(Val::Struct(vec![kv[0].clone(), v])); Some(Val::List(m)) };
+                if let Some(m) = with_last(Val::Null) { maps.push(m); }
+                for _ in 0..2 { let v = val(r); if let Some(m) = with_last(v) { maps.push(m); } }
+                let k1 = key(r); let k2 = key(r);
+                for v in [Val::Null, val(r), val(r)] { let mut m = base.clone(); m.push(ent(k1.clone(), v)); maps.push(Val::List(m)); }
+                { let mut m = base.clone(); m.push(ent(k1.clone(), Val::Null)); m.push(ent(k2.clone(), val(r))); maps.push(Val::List(m)); }
+                { let mut m = base.clone(); let v = val(r); m.push(ent(k1.clone(), v)); m.push(ent(k2.clone(), Val::Null)); maps.push(Val::List(m)); }
+                if nb >= 1 { maps.push(Val::List(base[..nb - 1].to_vec())); }
+                if nb >= 2 { let mut m = base.clone(); if let Val::Struct(kv) = &m[0] { m[0] = Val::Struct(vec![kv[0].clone(), if kv[1] == Val::Null { val(r) } else { Val::Null }]); } maps.push(Val::List(m)); }
+                { let m: Vec<Val> = base.iter().map(|e| { let Val::Struct(kv) = e else { unreachable!() }; ent(kv[0].clone(), if r.bool() { Val::Null } else { val(r) }) }).collect(); maps.push(Val::List(m)); }
+                for i in (1..maps.len()).rev() { let j = r.below(i + 1); maps.swap(i, j); }
+                // alone, or followed by a second column that decides between equal maps
+                let two = rep % 2 == 1;
+                let tys = if two { vec![mt.clone(), Ty::leaf(T_INT, 4, 0, 0)] } else { vec![mt.clone()] };
+                let opts = if two { vec![o, all_opts()[r.below(4)]] } else { vec![o] };
+                let rows: Vec<Vec<Val>> = maps.into_iter().map(|m| if two { vec![m, if r.chance(1, 5) { Val::Null } else { Val::Int(BigInt::from(r.range(-2, 2))) }] } else { vec![m] }).collect();
+                let mut b = Batch { tys, opts, rows, prefix: 0, suffix: 0, seed: 0, split: 0, mode: 0, sel: vec![], bk: 0, bm: 0 };
+                layout(&mut b, r);
+                emit_batch(&b, r, emit, 7);
+            }
+        }
     }
 
     // 5. longer batches (lengths around 64 / 1024: boolean / null-buffer decoding works in 64-row chunks)
